@@ -1,14 +1,14 @@
-\* quick exhaustive configuration, scaled-down threshold (alignment effects inside squares of width <= 8)
+\* production threshold, thorough: share versions free, three namespaces
 SPECIFICATION Spec
 CONSTANTS
-  T = 2
+  T = 64
   MaxBlobs = 3
   NSS = {2, 4, 6}
-  LENS = {1, 3, 5}
+  LENS = {1, 65, 129}
   VERS = {0, 1}
-  COMPACTS = {0, 1, 2, 3}
+  COMPACTS = {0, 1, 2, 3, 4}
   QUERYNS = {2, 3, 4, 6, 7}
-  VerTied = TRUE
+  VerTied = FALSE
   EmitCases = TRUE
 INVARIANTS
   TypeOK ParserShape GetAllExact GetExact ProofRowsExact IncludedConsistent NoInternalError AbsentNs EmitCase
